@@ -65,7 +65,7 @@ Sig buildConsistent(const Chooser &c, const BuildOpts &o) {
         unsigned nl = 1 + (c.pick(16) == 0 ? c.pick(40) : c.pick(6)); int room = 255 - level - (n - i - 1) * 8; // leave head-room for the chains above
         for (unsigned j = 0; j < nl && level < 250; j++) {
             Link l; l.isLeft = c.pick(2) != 0; unsigned k = c.pick(10);
-            if (k == 9 && o.allowMeta) { l.kind = SIB_META; std::string cid; unsigned cl = 1 + c.pick(10); for (unsigned q = 0; q < cl; q++) cid.push_back((char)('a' + c.pick(26))); l.sib = metaContent(cid, c.pick(2) ? "m" + cid : "", c.pick(2) != 0, c.pick(65536), c.pick(2) != 0, 1500000000000000ULL + c.pick(65536), c.pick(4) ? 1 : 0);
+            if (k == 9 && o.allowMeta) { l.kind = SIB_META; std::string cid; unsigned cl = 1 + c.pick(10); for (unsigned q = 0; q < cl; q++) cid.push_back((char)('a' + c.pick(26))); if (cl == 10 && cid[0] < 'g') { /* names around the one-octet length limit (254 characters + NUL = 255 octets); no additional draw, so that saved choice strings keep their length */ static const unsigned L[] = {253, 254, 255, 254, 254, 126}; unsigned want = L[cid[0] - 'a']; std::string base = cid; while (cid.size() < want) cid += base; cid.resize(want); } l.sib = metaContent(cid, c.pick(2) ? "m" + cid : "", c.pick(2) != 0, c.pick(65536), c.pick(2) != 0, 1500000000000000ULL + c.pick(65536), c.pick(4) ? 1 : 0);
                 // without padding the record must not be readable as an imprint
                 if (l.sib[0] != 0x7e) { const AlgInfo *ai = algInfo(l.sib[0]); if (ai && ai->digestLen + 1 == l.sib.size()) l.sib = metaContent(cid + "x", "", false, 0, false, 0, 1); } }
             else if (k == 8 && o.allowLegacy) { l.kind = SIB_LEGACY; std::string nm; unsigned ln = c.pick(26); for (unsigned q = 0; q < ln; q++) nm.push_back((char)('A' + c.pick(26))); l.sib = legacyId(nm); }
